@@ -217,7 +217,7 @@ def shards(tier, seed):
     if tier == "quick":
         return [{"kind": "random", "rseed": seed * 1000 + i, "count": 125} for i in range(8)] + \
                [{"kind": "patterns", "rseed": seed * 1000 + 900, "reps": 1}]
-    return [{"kind": "random", "rseed": seed * 1000 + i, "count": 1600} for i in range(16)] + \
+    return [{"kind": "random", "rseed": seed * 1000 + i, "count": 5000} for i in range(16)] + \
            [{"kind": "patterns", "rseed": seed * 1000 + 900 + i, "reps": 4} for i in range(4)]
 
 
